@@ -229,7 +229,9 @@ RECURSIVE RunPre(_, _)
 RunPre(x, w) == IF w.pc \in {"call", "done"} THEN w ELSE RunPre(x, Step(x, VariantSeq[1], w))
 Run(x, v) == RunFrom(x, v, Enter(x))
 
-(* ---- what C04 demands of a finished call (B = PyBind, E = Expected) ----------------- *)
+(* ---- what C04 demands of a finished call ------------------------------------------- *)
+\* B = PyBind, E = Expected, good / bad = all / some values bound to annotated parameters satisfy /
+\* violate them, fb = the first parameter with a bad value
 Passthrough(v) == IF v.body = "raise" THEN "exc" ELSE IF v.ret = "bad" THEN "ReturnViolation" ELSE "ok"
 AllGood(c, B, E) == ~B.err /\ BadPairs(c, E) = {}
 SomeBad(c, B, E) == ~B.err /\ BadPairs(c, E) # {}
@@ -238,17 +240,17 @@ SomeBad(c, B, E) == ~B.err /\ BadPairs(c, E) # {}
 \* a parameter it does not belong to, no default is checked
 HCheckedSound(B, E, w)   == ~B.err => Range(w.checked) \subseteq E
 \* if nothing is wrong, every passed value of an annotated parameter was checked
-HCheckedAll(c, B, E, w)  == AllGood(c, B, E) => Range(w.checked) = E
+HCheckedAll(good, E, w)  == good => Range(w.checked) = E
 HDefaultsUnchecked(w)    == \A e \in Range(w.checked) : e[2] # "D"
 \* a failing parameter check: the original never runs, a parameter violation names the first bad one
-HBadBlocks(s, c, B, E, w) == SomeBad(c, B, E) => w.ran = 0 /\ w.out = "ParamViolation" /\ w.blame = FirstBad(s, c, B)
+HBadBlocks(bad, fb, w)   == bad => w.ran = 0 /\ w.out = "ParamViolation" /\ w.blame = fb
 \* all checks pass: the original runs exactly once with exactly what CPython binds; outcome unchanged
-HTransparent(c, B, E, v, w) == AllGood(c, B, E) => w.ran = 1 /\ w.recv = B /\ w.out = Passthrough(v)
+HTransparent(good, B, v, w) == good => w.ran = 1 /\ w.recv = B /\ w.out = Passthrough(v)
 \* a call that cannot bind: TypeError or a parameter violation, the original does not run
 HUnbindable(B, w)        == B.err => w.ran = 0 /\ w.out \in {"TypeError", "ParamViolation"}
-HoldsAll(s, c, B, E, v, w) ==
-  /\ HCheckedSound(B, E, w) /\ HCheckedAll(c, B, E, w) /\ HDefaultsUnchecked(w)
-  /\ HBadBlocks(s, c, B, E, w) /\ HTransparent(c, B, E, v, w) /\ HUnbindable(B, w)
+\* grouped for the case table: clauses about the argument phase / about the outcome
+HArgPhase(B, E, good, w) == HCheckedSound(B, E, w) /\ HCheckedAll(good, E, w) /\ HDefaultsUnchecked(w)
+HOutcome(B, good, bad, fb, v, w) == HBadBlocks(bad, fb, w) /\ HTransparent(good, B, v, w) /\ HUnbindable(B, w)
 
 (* ---- state machine ------------------------------------------------------------------ *)
 VARIABLES sig,    \* the decorated callable's parameters
@@ -261,6 +263,8 @@ NoCall == [pos |-> <<>>, kw |-> EmptyFn]
 X == Ctx(sig, call, code)
 PB == PyBind(sig, call)
 PE == Expected(sig, PB)
+PGood == AllGood(call, PB, PE)
+PBad  == SomeBad(call, PB, PE)
 
 Init == sig = <<>> /\ code = GenCode(<<>>) /\ call = NoCall /\ var = VariantSeq[1] /\ w = Idle
 
@@ -291,10 +295,10 @@ Spec == Init /\ [][Next]_vars
 (* ---- properties (check mode): one invariant per clause ------------------------------ *)
 Done == w.pc = "done"
 CheckedSound     == Done => HCheckedSound(PB, PE, w)
-CheckedAll       == Done => HCheckedAll(call, PB, PE, w)
+CheckedAll       == Done => HCheckedAll(PGood, PE, w)
 DefaultsUnchecked == HDefaultsUnchecked(w)
-BadBlocks        == Done => HBadBlocks(sig, call, PB, PE, w)
-Transparent      == Done => HTransparent(call, PB, PE, var, w)
+BadBlocks        == Done => HBadBlocks(PBad, IF PBad THEN FirstBad(sig, call, PB) ELSE "", w)
+Transparent      == Done => HTransparent(PGood, PB, var, w)
 Unbindable       == Done => HUnbindable(PB, w)
 \* the original never runs before all parameter checks are through, and at most once
 RanLate          == w.ran <= 1 /\ (w.ran = 1 => w.pc \in {"ret", "done"})
@@ -305,18 +309,24 @@ AgreesWithRun    == Done => w = Run(X, var)
 OutCode(o) == CASE o = "TypeError" -> 0 [] o = "ParamViolation" -> 1 [] o = "ok" -> 2 [] o = "exc" -> 3
                 [] o = "ReturnViolation" -> 4
 CallRow(s, cd, c) ==
-  LET x   == Ctx(s, c, cd)
-      B   == PyBind(s, c)
-      E   == Expected(s, B)
-      pre == RunPre(x, Enter(x))
-      fin == [k \in DOMAIN VariantSeq |-> RunFrom(x, VariantSeq[k], pre)]
+  LET x    == Ctx(s, c, cd)
+      B    == PyBind(s, c)
+      E    == Expected(s, B)
+      good == AllGood(c, B, E)
+      bad  == SomeBad(c, B, E)
+      fb   == IF bad THEN FirstBad(s, c, B) ELSE ""
+      pre  == RunPre(x, Enter(x))
+      fin  == [k \in DOMAIN VariantSeq |-> RunFrom(x, VariantSeq[k], pre)]
   IN [p   |-> c.pos, k |-> c.kw,
       e   |-> IF B.err THEN 1 ELSE 0, one |-> B.one, star |-> B.star, kw |-> B.kw,
       o   |-> [j \in DOMAIN fin |-> OutCode(fin[j].out)],
       r   |-> fin[1].ran,                       \* the same for every variant
       bl  |-> pre.blame,
-      rv  |-> \A j \in DOMAIN fin : fin[j].ran = fin[1].ran,
-      h   |-> \A j \in DOMAIN fin : HoldsAll(s, c, B, E, VariantSeq[j], fin[j])]
+      ch  |-> pre.checked,                      \* <<parameter, value>> pairs in the order checked
+      ex  |-> IF bad THEN E ELSE {},            \* Expected, where it is not simply the set of ch
+      h   |-> /\ HArgPhase(B, E, good, pre)
+              /\ \A j \in DOMAIN fin : /\ HOutcome(B, good, bad, fb, VariantSeq[j], fin[j])
+                                       /\ fin[j].ran = fin[1].ran /\ fin[j].checked = pre.checked]
 RECURSIVE SigCode(_)
 SigCode(s) == IF s = <<>> THEN 0
               ELSE LET q == s[Len(s)] IN
@@ -326,7 +336,7 @@ InShard(s) == /\ (ShardPos = 99 \/ ShardPos = NPos(s)) /\ (ShardKw = 99 \/ Shard
 Row(s, cd) == [sig |-> s, gen |-> [j \in DOMAIN cd.G |-> <<cd.G[j].kind, cd.G[j].name, cd.G[j].idx>>],
                needlen |-> cd.needlen, kwable |-> cd.kwable, haskw |-> Has(s, "varkw"),
                variants |-> VariantSeq, calls |-> { CallRow(s, cd, c) : c \in Calls(s) }]
-Printable(row) == [row EXCEPT !.calls = { [f \in DOMAIN r \ {"h", "rv"} |-> r[f]] : r \in row.calls }]
+Printable(row) == [row EXCEPT !.calls = { [f \in DOMAIN r \ {"h"} |-> r[f]] : r \in row.calls }]
 Emit == (Mode = "emit" /\ InShard(sig)) =>
-          LET row == Row(sig, code) IN PrintT(ToJson(Printable(row))) /\ \A r \in row.calls : r.h /\ r.rv
+          LET row == Row(sig, code) IN PrintT(ToJson(Printable(row))) /\ \A r \in row.calls : r.h
 =============================================================================
